@@ -1,5 +1,74 @@
-/-! Dispatch of hand-written kernels for the driver (filled in as kernels are added). -/
+import QscModel.FArr
+import QscModel.Hand.SpecDiff
+import QscModel.Hand.Newton
+import QscModel.Hand.Helicity
+import QscModel.Hand.Interp
+import QscModel.Hand.Axis
+import QscModel.Hand.ToFourier
+import QscModel.Hand.Dof
+import QscModel.Hand.Diag
+/-! Dispatch of hand-written kernels for the driver: `hand <kernel> <args>*` -> lines `out <name> <values>*`. -/
 namespace Hand
+instance : NatCast Float := ⟨Float.ofNat⟩
+
+def fl (s : String) : Float := Float.ofBits (s.toNat!).toUInt64
+def sb (x : Float) : String := toString x.toBits
+def outF (nm : String) (xs : List Float) : String := s!"out {nm} " ++ " ".intercalate (xs.map sb)
+def outI (nm : String) (xs : List Int) : String := s!"out {nm} " ++ " ".intercalate (xs.map toString)
+def pi : Float := 3.141592653589793
+def eps : Float := 2.220446049250313e-16
+def getF (a : Array Float) (k : Nat) : Float := a[k]!
+
 def dispatch (kernel : String) (args : List String) : List String :=
-  [s!"error unknown-kernel {kernel}"]
+  match kernel, args with
+  | "specdiff", [n, xmin, xmax] =>
+      let n := n.toNat!
+      [outF "D" ((List.range (n * n)).map fun t => SpecDiff.D Float.sin Float.tan pi (fl xmin) (fl xmax) n (t / n) (t % n))]
+  | "newton", niter :: nls :: tol :: bigtol :: norms =>
+      let a := (norms.map fl).toArray
+      let r := Newton.newton Newton.floatCmp (fun k => if k < a.size then a[k]! else (0.0/0.0)) (fl tol) (fl bigtol) niter.toNat! nls.toNat!
+      [outI "best" [r.1], outI "warned" [if r.2.1 then 1 else 0], outI "evals" [r.2.2]]
+  | "helicity", sgn :: n :: rest =>
+      let n := n.toNat!
+      let v := (rest.map fl).toArray
+      let q := (List.range n).map fun j => Helicity.quadrant (v[j]! >= 0.0) (v[n + j]! >= 0.0)
+      [outI "counter" [Helicity.counter q sgn.toInt!], outI "quadrant" q]
+  | "interp", nN :: nM :: rest =>
+      let nN := nN.toNat!; let nM := nM.toNat!
+      let v := (rest.map fl).toArray
+      let guard : Float → Float := fun d => d + eps * (if d == 0.0 then 1.0 else 0.0)
+      [outF "y" ((List.range nM).map fun m => Interp.interp Float.sin Float.tan guard pi (fun k => v[k]!) nN v[nN + m]!)]
+  | "axis", nfp :: nphi :: nf :: rest =>
+      let nfp := nfp.toNat!; let nphi := nphi.toNat!; let nf := nf.toNat!
+      let v := (rest.map fl).toArray
+      let rc := fun k => getF v k; let zs := fun k => getF v (nf + k); let rs := fun k => getF v (2*nf + k); let zc := fun k => getF v (3*nf + k)
+      let ph := fun j => Axis.phi pi nfp nphi j
+      let js := List.range nphi
+      [outF "phi" (js.map ph),
+       outF "R0" (js.map fun j => Axis.f0 Float.sin Float.cos nfp rc rs nf (ph j)), outF "Z0" (js.map fun j => Axis.f0 Float.sin Float.cos nfp zc zs nf (ph j)),
+       outF "R0p" (js.map fun j => Axis.f1 Float.sin Float.cos nfp rc rs nf (ph j)), outF "Z0p" (js.map fun j => Axis.f1 Float.sin Float.cos nfp zc zs nf (ph j)),
+       outF "R0pp" (js.map fun j => Axis.f2 Float.sin Float.cos nfp rc rs nf (ph j)), outF "Z0pp" (js.map fun j => Axis.f2 Float.sin Float.cos nfp zc zs nf (ph j)),
+       outF "R0ppp" (js.map fun j => Axis.f3 Float.sin Float.cos nfp rc rs nf (ph j)), outF "Z0ppp" (js.map fun j => Axis.f3 Float.sin Float.cos nfp zc zs nf (ph j))]
+  | "varphi", n :: rest =>
+      let n := n.toNat!
+      let v := (rest.map fl).toArray
+      [outF "cum" ((List.range n).map fun j => Axis.varphiCum (fun k => v[k]!) j)]
+  | "tofourier", nfp :: ntheta :: nphi :: mpol :: ntor :: rest =>
+      let nfp := nfp.toNat!; let ntheta := ntheta.toNat!; let nphi := nphi.toNat!; let mpol := mpol.toNat!; let ntor := ntor.toNat!
+      let v := (rest.map fl).toArray
+      let R := fun i j => getF v (i * nphi + j)
+      let Z := fun i j => getF v (ntheta * nphi + i * nphi + j)
+      let idx := (List.range ((2 * ntor + 1) * (mpol + 1)))
+      let mk := fun (X : Nat → Nat → Float) (c : Bool) => idx.map fun t =>
+        let k := t / (mpol + 1); let m := t % (mpol + 1)
+        ToFourier.entry Float.sin Float.cos pi nfp ntheta nphi ntor X c m ((k : Int) - (ntor : Int))
+      [outF "RBC" (mk R true), outF "RBS" (mk R false), outF "ZBC" (mk Z true), outF "ZBS" (mk Z false)]
+  | "invfourier", nfp :: mpol :: ntor :: npts :: rest =>
+      let nfp := nfp.toNat!; let mpol := mpol.toNat!; let ntor := ntor.toNat!; let npts := npts.toNat!
+      let v := (rest.map fl).toArray
+      let sz := (2 * ntor + 1) * (mpol + 1)
+      let C := fun (m : Nat) (n : Int) => getF v ((n + ntor).toNat * (mpol + 1) + m)
+      let S := fun (m : Nat) (n : Int) => getF v (sz + (n + ntor).toNat * (mpol + 1) + m)
+      [outF "val" ((List.range npts).map fun p => ToFourier.inverse Float.sin Float.cos nfp mpol ntor C S v[2 * sz + 2 * p]! v[2 * sz + 2 * p + 1]!)]
+  | _, _ => [s!"error unknown-kernel {kernel}"]
 end Hand
